@@ -58,10 +58,8 @@ def _len_of(e):
 
 
 def _const_int(e):
-    e = ir.peel(e, casts=False)
-    if e[0] == 'const' and isinstance(e[1], int):
-        return e[1]
-    return None
+    v = ir.const_value(e)
+    return v if isinstance(v, int) else None
 
 
 def emptiness(de):
@@ -188,18 +186,33 @@ class Events:
         subj, c0, other = r
         return subject_class(subj), subj, c0, other
 
-    def poll_switch(self, n):
-        """If n switches on the discriminant of a call result produced in the same frame, return
-        (event of that call node, call node)."""
+    def poll_switches(self, n):
+        """If n switches on the discriminant of call results (possibly several, joined by a phi, e.g. the
+        value returned by an inlined helper), return [(event of that call node, call node), ...]."""
         de = self.switch_expr(n)
         if de is None or de[0] != 'discr':
-            return None
-        x = de[1]
-        if x[0] != 'call' or x[3][0] != n.frame.body.path:
-            return None
+            return []
         from ieg import Node
-        cn = Node(n.frame, x[3][1], None)
-        return self.at(cn), cn
+        out = []
+        work = [ir.peel(de[1])]
+        while work:
+            x = work.pop()
+            if x[0] == 'phi':
+                work.extend(ir.peel(y) for y in x[1])
+            elif x[0] == 'call' and isinstance(x[3][0], int):
+                cn = Node(self.g.frames[x[3][0]], x[3][1], None)
+                out.append((self.at(cn), cn))
+        return out
+
+    def poll_switch(self, n):
+        """Single-call form of poll_switches (first transport event if any, else first call)."""
+        ps = self.poll_switches(n)
+        if not ps:
+            return None
+        for (e, cn) in ps:
+            if e is not None and e[0] in ('READ', 'WRITE', 'FLUSH'):
+                return e, cn
+        return ps[0]
 
     @staticmethod
     def edge_value(lab, c0, other):
